@@ -14,6 +14,32 @@ CHECKS = {
              "exhaustively by TLC and the observed outcome must be in the exported set.",
         note="Trusts the renderer/projection, CPython primitives on small values; recursion, call depth > 3 and "
              "string arithmetic are out of the modelled fragment and only counted."),
+    "C02": dict(
+        engine="core", level="model_checking", design="5.1, 6/C02",
+        technique="exhaustive and/or forms (arity x operand shape x truthiness) run on hy, trace-validated and "
+                  "explored by TLC against HyCore (ShortCircuit invariant)",
+        text="All and/or forms of arity 0..4 (thorough 0..5, sampled to 8) over plain, effectful, statement-producing "
+             "and nested operands under every truthiness assignment are executed; TLC validates log (operand sites "
+             "with returned values), value and globals against HyCore, where ShortCircuit is a checked invariant; "
+             "hy.pyops.and_/or_ are compared by value on plain operands.",
+        note="Truthiness of the value pool (ints, bools, None, lists, strings) as transcribed in HyCore!Truthy."),
+    "C06": dict(
+        engine="core", level="model_checking", design="5.1, 6/C06",
+        technique="let/closure programs with every variable read logged, trace-validated by TLC against HyCore's "
+                  "lexical environment chain",
+        text="Programs nesting let, fn, defn, setv, setx and calls over a shared 3-name pool (exhaustive by size, at "
+             "module and function level, plus random deep) are run with each read wrapped as (e k x); TLC accepts the "
+             "run only if every read saw the value HyCore's environment chain prescribes and the final globals match.",
+        note="defn of a name bound by an enclosing let is not generated (documented hoisting corner)."),
+    "C09": dict(
+        engine="core", level="model_checking", design="5.1, 6/C09",
+        technique="fault enumeration at every effect call of try/with programs, trace-validated and explored by TLC "
+                  "against HyCore's abrupt-completion semantics",
+        text="try/except/else/finally and with programs (exhaustive by size + random nesting <= 3) are run with an "
+             "exception of one of three types injected at each call of each effect site (body, handler, else, finally, "
+             "__enter__, __exit__), singly and in pairs; TLC validates clause order, finally-exactly-once, the escaping "
+             "exception, the form's value and outer variables against HyCore.",
+        note="break/continue/return inside finally, except*, empty else/finally are not generated."),
     "C38": dict(
         engine="gensym", level="model_checking", design="5.8, 6/C38",
         technique="TLC exhaustive interleavings of the op program extracted from gensym's bytecode; "
